@@ -10,8 +10,21 @@ T2 (model <-> implementation), per case and per price shape:
 Oracle (implementation only, straight from the property text):
   cost(s,p) - cost(s,0) - sum(s*p) ~ 0,  deriv(s,p) - deriv(s,0) - p ~ 0,  hess(s,p) == hess(s,0),
   and every equivalent price shape gives the same cost / deriv / hess.
+  Price updated in place (a dual-ascent / ADMM price loop): evaluate cost/deriv with a price ndarray, change that
+  SAME array object in place, evaluate again; the result must equal that of a freshly built device at a fresh copy
+  of the array, and satisfy the identity against the cost(s,0) computed before (a memo keyed on object identity
+  makes cost and deriv stale together, so only these two comparisons see it).
+  Integer-typed flows (bounds given as ints, `lbounds`/`hbounds`, 0/1 commitment arrays) with fractional prices are
+  drawn on purpose (`intflow`), most often on base Device / PVDevice leaves.
+  The oracle reports ONLY violations of the identities: a case whose evaluation at price 0 raises in every shape
+  (or returns a wrongly sized gradient) is skipped here — that every accepted device is usable is C10's claim.
+
+Obligations that are definitional (`rfl` / `simp` on the definition, listed for completeness, they carry no
+content beyond the model's definitions): hess_indep, cost_scalar_eq_mat, cost_vec_eq_mat, deriv_scalar_eq_mat,
+deriv_vec_eq_mat, cost_scalar_eq_vec, adevice_cost, adevice_deriv, device_deriv, cdevice_deriv.  See the header of
+DK/Props/C08.lean.
 """
-import random as _random
+import math
 from fractions import Fraction
 from .. import common as C, gen, build
 from ..common import F, fs, dy
@@ -39,6 +52,22 @@ def gen_base_price(rng, R, n, allow_mat=True):
   if q < 0.66 or not allow_mat:
     return [val() for _ in range(n)]
   return [[val() for _ in range(n)] for _ in range(R)]
+
+
+def fractional_price(rng, R, n):
+  """a price with at least one non-integer entry."""
+  while True:
+    p = gen_base_price(rng, R, n)
+    if any(Fraction(x).denominator != 1 for x in C.flat(p)):
+      return p
+
+
+def price_delta(rng, p):
+  """a non-zero in-place update of the price, same shape."""
+  d = C.jmap(lambda _: fs(dy(rng, -2, 2, 3)), p)
+  if not nonzero(d):
+    d = C.jmap(lambda _: '3/8', p)
+  return d
 
 
 def shapes_of(p, R, n):
@@ -69,14 +98,14 @@ class C08(Prop):
   rule = ('leaves of every shipped class (n 1..8 quick, ..31 thorough; zero-width slots; scalar/vector parameters), random trees '
           '(depth <= 3, children with different row counts, MF / two-ratio adaptors as children) and bare MF adaptors x in-bounds flow x '
           'price of any sign in every accepted shape (scalar, per-slot vector, full matrix; every equivalent shape of the drawn price is '
-          'exercised). non-trivial: some non-zero price entry and some non-zero flow entry (trees: >= 2 rows)')
+          'exercised). integer-typed integer-valued flows with fractional prices (20% of leaves are base Device/PVDevice of that kind); price updated in place between calls. non-trivial: some non-zero price entry and some non-zero flow entry (trees: >= 2 rows)')
   sizes = {'quick': 800, 'thorough': 12000}
   assumptions = ['hess_indep is true by definition of the model (no price argument); that the implementation ignores p is observed by T2/oracle',
                  'numpy broadcasting of the price is modelled (Price.toMat / jMat), not verified: T2 + oracle with the three shapes',
                  'numerically differentiated Hessians (SDevice, TDevice) are compared only for n <= 3']
 
   def __init__(self):
-    self.stats = {'leaf': 0, 'tree': 0, 'mf': 0, 'shapes': {'scalar': 0, 'vector': 0, 'matrix': 0}, 'classes': {}}
+    self.stats = {'leaf': 0, 'tree': 0, 'mf': 0, 'intflow_cases': 0, 'intflow_base_device': 0, 'shapes': {'scalar': 0, 'vector': 0, 'matrix': 0}, 'classes': {}}
 
   # ------------------------------------------------------------------ cases
   def cases(self, rng, tier, count):
@@ -92,31 +121,60 @@ class C08(Prop):
     return out
 
   def leaf_case(self, rng, tier):
-    d = gen.gen_leaf(rng, tier)
-    n = d['n']
-    return {'kind': 'leaf', 'dev': d, 'n': n, 's': gen.leaf_flow(rng, d), 's0': gen.leaf_flow(rng, d, 'mixed'),
-            'p': gen_base_price(rng, 1, n), '_flat': rng.random() < 0.5}
+    q = rng.random()
+    if q < 0.2:
+      # base Device / PVDevice with integer bounds, an integer-valued flow (on a bound or between) held in an
+      # INTEGER array, and a fractional price
+      d = gen.gen_leaf(rng, tier, ['Device', 'PVDevice'])
+      n = d['n']
+      d['lb'] = [fs(math.floor(F(x))) for x in d['lb']]; d['hb'] = [fs(math.ceil(F(x))) for x in d['hb']]
+      d['cbs'] = []; d['_py']['cform'] = None
+      d['_py']['bform'] = 'table' if n == 2 or d['_py'].get('bform') == 'scalar' else d['_py'].get('bform', 'table')
+      pick = lambda a, b: rng.choice([a, b, rng.randint(a, b)])
+      case = {'kind': 'leaf', 'dev': d, 'n': n, 's': [fs(pick(int(a), int(b))) for a, b in zip(d['lb'], d['hb'])],
+              's0': [fs(pick(int(a), int(b))) for a, b in zip(d['lb'], d['hb'])],
+              'p': fractional_price(rng, 1, n), 'intflow': rng.random() < 0.8, '_flat': rng.random() < 0.5}
+    else:
+      d = gen.gen_leaf(rng, tier)
+      n = d['n']
+      case = {'kind': 'leaf', 'dev': d, 'n': n, 's': gen.leaf_flow(rng, d), 's0': gen.leaf_flow(rng, d, 'mixed'),
+              'p': gen_base_price(rng, 1, n), '_flat': rng.random() < 0.5}
+      if q < 0.3:
+        # any class at an integer-typed flow (the identities hold for every flow, in bounds or not)
+        case['s'] = [fs(round(F(x))) for x in case['s']]; case['s0'] = [fs(round(F(x))) for x in case['s0']]
+        case['intflow'] = True
+        case['p'] = fractional_price(rng, 1, n)
+    case['dp'] = price_delta(rng, case['p'])
+    return case
 
   def tree_case(self, rng, tier):
     t, n = gen.gen_tree(rng, tier)
     R = gen.tree_rows(t)
-    return {'kind': 'tree', 'tree': t, 'n': n, 'S': gen.tree_flow(rng, t, n), 'S0': gen.tree_flow(rng, t, n, 'mixed'),
+    case = {'kind': 'tree', 'tree': t, 'n': n, 'S': gen.tree_flow(rng, t, n), 'S0': gen.tree_flow(rng, t, n, 'mixed'),
             'p': gen_base_price(rng, R, n), '_flat': rng.random() < 0.3}
+    if rng.random() < 0.2:
+      case['S'] = C.jmap(lambda x: fs(round(F(x))), case['S']); case['S0'] = C.jmap(lambda x: fs(round(F(x))), case['S0'])
+      case['intflow'] = True
+      case['p'] = fractional_price(rng, R, n)
+    case['dp'] = price_delta(rng, case['p'])
+    return case
 
   def mf_case(self, rng, tier):
     t, n = gen.gen_tree(rng, tier, depth=1, want_mf=True)
     mfs = [b for b in gen.tree_leaves(t) if b['k'] == 'mf']
     m = rng.choice(mfs)
     R = len(m['flows'])
-    return {'kind': 'tree', 'tree': m, 'n': n, 'S': gen.tree_flow(rng, m, n), 'S0': gen.tree_flow(rng, m, n, 'mixed'),
+    case = {'kind': 'tree', 'tree': m, 'n': n, 'S': gen.tree_flow(rng, m, n), 'S0': gen.tree_flow(rng, m, n, 'mixed'),
             'p': gen_base_price(rng, R, n), '_flat': rng.random() < 0.3, '_mf': True}
+    case['dp'] = price_delta(rng, case['p'])
+    return case
 
   # ------------------------------------------------------------------ python objects
   def _leaf(self, case):
     dev = build.build_leaf(case['dev'])
     n = case['n']
     def flow(v):
-      a = build.arr(v)
+      a = np().array(build.jf(v), dtype=int) if case.get('intflow') else build.arr(v)
       return a if case.get('_flat', True) else a.reshape(1, n)
     return dev, flow
 
@@ -124,7 +182,7 @@ class C08(Prop):
     dev = build.build_tree(case['tree'])
     R, n = gen.tree_rows(case['tree']), case['n']
     def flow(v):
-      a = build.arr(v).reshape(R, n)
+      a = (np().array(build.jf(v), dtype=int) if case.get('intflow') else build.arr(v)).reshape(R, n)
       return a.reshape(-1) if case.get('_flat') else a
     return dev, flow, R
 
@@ -132,6 +190,10 @@ class C08(Prop):
   def ops(self, case):
     ops = []
     n = case['n']
+    if case.get('intflow'):
+      self.stats['intflow_cases'] += 1
+      if case['kind'] == 'leaf' and case['dev']['cls'] in ('Device', 'PVDevice'):
+        self.stats['intflow_base_device'] += 1
     if case['kind'] == 'leaf':
       d = case['dev']
       dev, flow = self._leaf(case)
@@ -197,12 +259,18 @@ class C08(Prop):
     g0, ge0 = call(dev.deriv, s, 0)
     h0, he0 = call(dev.hess, s, 0) if do_hess else (None, 'skipped')
     if e0 or ge0:
-      # cost/deriv at zero price must work for every accepted device; report, do not hide
-      fail('raises', 'cost/deriv at price 0 raised %s' % (e0 or ge0))
+      # that cost/deriv work at all is C10's claim, not C08's.  Only if the zero price works in ANOTHER accepted shape
+      # (the full zero matrix) is this a C08 failure: the shapes are then not interchangeable.
+      zm = N.zeros((R, n))
+      cz, ez = call(dev.cost, s, zm)
+      gz, gez = call(dev.deriv, s, zm)
+      if not (ez or gez):
+        fail('price-shape', 'scalar price 0 raises (%s) while the equivalent zero matrix gives cost %.12g' % (e0 or ge0, float(cz)))
+      self.stats['skipped_unusable'] = self.stats.get('skipped_unusable', 0) + 1
       return out
     g0 = g0.reshape(-1)
     if g0.size != R*n:
-      fail('shape', 'deriv(s, 0) has %d entries for %d flow variables' % (g0.size, R*n))
+      self.stats['skipped_unusable'] = self.stats.get('skipped_unusable', 0) + 1      # C10
       return out
     ref = None
     for name, p in shapes_of(case['p'], R, n):
@@ -212,7 +280,7 @@ class C08(Prop):
       c, e = call(dev.cost, s, pp)
       g, ge = call(dev.deriv, s, pp)
       if e or ge:
-        fail('raises', 'price shape %s = %s: %s' % (name, p, e or ge))
+        fail('price-raises', 'cost/deriv work at price 0 but raise at the %s price %s: %s' % (name, p, e or ge))
         continue
       scale = max(1.0, abs(float(c)), abs(float(c0)), abs(lin))
       if not abs(float(c) - float(c0) - lin) <= 1e-9*scale:
@@ -232,7 +300,7 @@ class C08(Prop):
       if do_hess and he0 is None:
         h, he = call(dev.hess, s, pp)
         if he:
-          fail('raises', 'price shape %s: hess(s,p) raised %s although hess(s,0) works' % (name, he))
+          fail('price-raises', 'price shape %s: hess(s,p) raised %s although hess(s,0) works' % (name, he))
         elif h.shape != h0.shape or not N.allclose(h, h0, rtol=1e-9, atol=1e-12, equal_nan=True):
           fail('hess-price', 'price %s %s: hess(s,p) differs from hess(s,0) (max |diff| %.3g)' % (
             name, p, float(N.max(N.abs(h - h0))) if h.shape == h0.shape else float('nan')))
@@ -246,6 +314,29 @@ class C08(Prop):
           fail('price-shape', 'deriv with the %s price differs from the equivalent %s price (p=%s)' % (name, ref[0], case['p']))
         if h is not None and ref[3] is not None and (h.shape != ref[3].shape or not N.allclose(h, ref[3], rtol=1e-9, atol=1e-12, equal_nan=True)):
           fail('price-shape', 'hess with the %s price differs from the equivalent %s price' % (name, ref[0]))
+
+    # ---- the caller updates its price array in place between two calls (same ndarray object)
+    if 'dp' in case and not out:
+      pa = N.array(build.jf(case['p']), dtype=float)            # 0-d array for a scalar price
+      dpa = N.array(build.jf(case['dp']), dtype=float)
+      r1 = call(dev.cost, s, pa), call(dev.deriv, s, pa)
+      if not (r1[0][1] or r1[1][1]):
+        before = pa.copy()
+        pa += dpa
+        (c2, e2), (g2, ge2) = call(dev.cost, s, pa), call(dev.deriv, s, pa)
+        fresh = (self._leaf(case) if case['kind'] == 'leaf' else self._tree(case))[0]
+        pb = N.array(pa, dtype=float, copy=True)
+        (c3, e3), (g3, ge3) = call(fresh.cost, s, pb), call(fresh.deriv, s, pb)
+        if not (e2 or ge2 or e3 or ge3):
+          how = 'price %s evaluated, then updated IN PLACE by %s to %s' % (before.tolist(), case['dp'], pa.tolist())
+          if not abs(float(c2) - float(c3)) <= 1e-9*max(1.0, abs(float(c3))):
+            fail('price-inplace', '%s: cost %.12g, a fresh device at a fresh copy of the price gives %.12g' % (how, float(c2), float(c3)))
+          elif not N.allclose(g2.reshape(-1), g3.reshape(-1), rtol=1e-9, atol=1e-12):
+            fail('price-inplace', '%s: deriv differs from a fresh device at a fresh copy of the price (max |diff| %.3g)' % (
+              how, float(N.max(N.abs(g2.reshape(-1) - g3.reshape(-1))))))
+          lin2 = float((sm*(pa*N.ones((R, n)))).sum())
+          if not abs(float(c2) - float(c0) - lin2) <= 1e-9*max(1.0, abs(float(c2)), abs(float(c0)), abs(lin2)):
+            fail('price-inplace', '%s: cost(s,p)=%.12g but cost(s,0) + sum(s*p) = %.12g' % (how, float(c2), float(c0) + lin2))
     return out
 
   def nontrivial(self, case):
